@@ -264,6 +264,7 @@ func (o *Store) walk(t *Collection, withValue bool, cfn func(*node) (*nodeLoc, b
 	res *Item, err error) {
 	rnl := t.rootAddRef()
 	defer t.rootDecRef(rnl)
+	verifYield(2) // VerifSiteWalkPinned
 	n := rnl.root
 	nNode, err := n.read(o)
 	if err != nil || n.isEmpty() || nNode == nil {
@@ -302,6 +303,7 @@ func (o *Store) visitNodes(t *Collection, n *nodeLoc, target []byte,
 	}
 	if saveMem {
 		defer nNode.Evict()
+		defer verifYield(19) // VerifSiteVisitUnwind
 	}
 	nItemLoc := &nNode.item
 	nItem, err := nItemLoc.read(t, false)
